@@ -342,7 +342,7 @@ def run(ctx):
             step = max(2, nlines // (60 if not ctx.thorough else 400))
             jobs.append((*item, f"truncate-lines-every-{step}"))
             capped.append((item[1], nlines, step))
-        if nlines <= 60 or (ctx.thorough and nlines <= 3000):
+        if nlines <= 60 or (ctx.thorough and nlines <= 1000):
             jobs.append((*item, "line-edits"))
         else:
             jobs.append((*item, "table-rows"))
